@@ -5,3 +5,23 @@ check("C01", "model_checking",
   "Activities are atomic (preemption inside a scheduler iteration or a client call is explored by the T-mode checks); log-only message dispatch is run eagerly (commutes); bounds: <= 3 branches, depth 3, horizon 400 activities.",
   "stateless model checking of the implementation: replay DFS over all activity orders under an owned scheduler/clock/id generator",
   "DESIGN.md section 4 C01")
+check("C02", "model_checking",
+  "Every sequence of up to L client actions (all kinds, aimed at every interrupt act that exists, open or already terminal) on four base workflows is executed on the real engine at every quiescent point and, as a deviation, racing in-flight work; the sequence of states reported for every task is checked against the forward-only lifecycle with the single catch exception. All histories up to the bound, not samples.",
+  "Atomic activities; history length <= 2/3, deviation bound 1; the reported sequence is what the engine hands to its runtime at every task event (hook) plus what the API shows at quiescent points.",
+  "stateless model checking of the implementation: replay DFS over client histories x activity orders, trace monitor",
+  "DESIGN.md section 4 C02")
+check("C03", "model_checking",
+  "All histories of up to L client actions on workflows with two concurrently open regions, both keep_processes settings, every activity order within the deviation bound; at every task event a structural dump decides 'completed only over terminal subtrees', at every quiescent point process state == root state, per process exactly one start and one terminal event, nothing open or accepted after a non-error terminal event.",
+  "Atomic activities; <= 3 actions; two known findings (back / skip inside concurrently open regions) are listed in KNOWN_FINDINGS.txt with the histories they cover.",
+  "stateless model checking of the implementation: replay DFS over client histories x activity orders, invariant monitors on trace and dumps",
+  "DESIGN.md section 4 C03")
+check("C05", "model_checking",
+  "Admission matrix by exhaustive history exploration: from every state reached by a prefix history, every action kind x every target class (open act, terminal act, step, branch, root, unknown tid, unknown pid) x option maps (none / all declared outputs / one missing / extra and private keys); every accepted call must satisfy the admission rule, every rejected terminal-style call must return Err and leave the full process dump and the message stream unchanged. The at-most-once clause for concurrent identical actions is explored with real threads under a preemption bound (T-mode).",
+  "A-mode for the matrix (atomic calls); T-mode: scheduling points at the engine's own task-state / task-set / cache accesses, preemption bound k <= 2; bounds 2-3 client threads.",
+  "stateless model checking of the implementation: replay DFS over histories (matrix) and CHESS-style preemption-bounded exploration of real threads (races)",
+  "DESIGN.md section 4 C05")
+check("C08", "model_checking",
+  "On every execution of the C02 history scenarios the generated message stream is checked per task: at most one created and one terminal message in that order, existence per node kind, every field equal to the task at generation time, unique ids, parent announced before child, no report of an error the task caught itself.",
+  "Generation order is observed at the emitter (hook), delivery to log-only handlers commutes; same bounds as C02.",
+  "stateless model checking of the implementation: replay DFS over client histories x activity orders, message-stream monitor",
+  "DESIGN.md section 4 C08")
